@@ -168,7 +168,7 @@ def run(tier, seed):
         "bit-level structures (cables, per-bit endpoints, instances with parameters/attributes, assign pairs, ports) "
         "must be equal; states = distinct (input, transform, options); transitions = compose + parse executions")
     found = {}
-    deadline = time.time() + (200 if tier == "quick" else 3000)
+    deadline = time.time() + (900 if tier == "quick" else 6000)
     cs = cases(tier)
     k = seed % 7
     engine_b.run_cases(ID, cs[k:] + cs[:k], cov, found, deadline, level="verilog-roundtrip/" + tier)
